@@ -24,22 +24,22 @@ func init() {
 	symExternals[rtPkg+"Int"] = func(fr *frame, args []value) value {
 		t := X.fresh(labelOf(args[0]), X.intSort())
 		X.InputLog = append(X.InputLog, InputRec{K: "int", L: labelOf(args[0]), Vars: []string{t.Name}})
-		return symv{t: t, k: types.Int}
+		return mkScalar(X.pinOr(t), types.Int)
 	}
 	symExternals[rtPkg+"Int64"] = func(fr *frame, args []value) value {
 		t := X.fresh(labelOf(args[0]), X.intSort())
 		X.InputLog = append(X.InputLog, InputRec{K: "int64", L: labelOf(args[0]), Vars: []string{t.Name}})
-		return symv{t: t, k: types.Int64}
+		return mkScalar(X.pinOr(t), types.Int64)
 	}
 	symExternals[rtPkg+"Byte"] = func(fr *frame, args []value) value {
 		t := X.fresh(labelOf(args[0]), BV(8))
 		X.InputLog = append(X.InputLog, InputRec{K: "byte", L: labelOf(args[0]), Vars: []string{t.Name}})
-		return symv{t: t, k: types.Uint8}
+		return mkScalar(X.pinOr(t), types.Uint8)
 	}
 	symExternals[rtPkg+"Bool"] = func(fr *frame, args []value) value {
 		t := X.fresh(labelOf(args[0]), BoolSort)
 		X.InputLog = append(X.InputLog, InputRec{K: "bool", L: labelOf(args[0]), Vars: []string{t.Name}})
-		return symv{t: t, k: types.Bool}
+		return mkScalar(X.pinOr(t), types.Bool)
 	}
 	symExternals[rtPkg+"Choose"] = func(fr *frame, args []value) value {
 		c := X.choose(int(asInt64(args[1])))
@@ -54,7 +54,7 @@ func init() {
 		for i := range b {
 			t := X.fresh(fmt.Sprintf("%s[%d/%d]", labelOf(args[0]), i, n), BV(8))
 			rec.Vars = append(rec.Vars, t.Name)
-			b[i] = symv{t: t, k: types.Uint8}
+			b[i] = mkScalar(X.pinOr(t), types.Uint8)
 		}
 		X.InputLog = append(X.InputLog, rec)
 		return mkStr(b)
@@ -66,7 +66,7 @@ func init() {
 		for i := range b {
 			t := X.fresh(fmt.Sprintf("%s[%d/%d]", labelOf(args[0]), i, n), BV(8))
 			rec.Vars = append(rec.Vars, t.Name)
-			b[i] = symv{t: t, k: types.Uint8}
+			b[i] = mkScalar(X.pinOr(t), types.Uint8)
 		}
 		X.InputLog = append(X.InputLog, rec)
 		return mkStr(b)
